@@ -127,8 +127,18 @@ fn orders_menu(u: i32) -> Vec<Vec<ds::Horizontal>> {
     ]
 }
 
+/// The looseness menu plus two very stretchy glues, so that the last line (which has no infinite
+/// stretch in the finite-end families) lands in different fitness classes depending on where it starts.
+fn stretchy_menu(u: i32) -> Vec<Vec<ds::Horizontal>> {
+    let mut m = looseness_menu(u);
+    m.push(vec![g(u, 2, 6, 1)]);
+    m.push(vec![g(u, 1, 4, 0)]);
+    m
+}
+
 fn menu_by_name(name: &str, u: i32) -> Vec<Vec<ds::Horizontal>> {
     match name {
+        "stretchy" => stretchy_menu(u),
         "orders" => orders_menu(u),
         "clean" => clean_menu(u),
         "reduced" => reduced_menu(u),
@@ -148,11 +158,18 @@ fn finish_list(list: &mut Vec<ds::Horizontal>, u: i32, bare: bool, ending: u8) {
         2 => Some((u, GlueOrder::Fill)),
         3 => Some((u, GlueOrder::Filll)),
         4 => Some((-u, GlueOrder::Fil)),
+        6 => Some((u, GlueOrder::Normal)),
+        7 => Some((0, GlueOrder::Normal)),
         _ => None,
     };
     if let Some((st, o)) = fill_skip {
         list.push(pen(10000));
         list.push(glue(0, st, o, 0, GlueOrder::Normal));
+    }
+    if ending == 8 {
+        // a \parfillskip that can only shrink: 2u minus 2u
+        list.push(pen(10000));
+        list.push(glue(2 * u, 0, GlueOrder::Normal, 2 * u, GlueOrder::Normal));
     }
 }
 
@@ -172,8 +189,8 @@ impl Clone for PVar {
 
 /// single changes that are also combined in pairs
 const N_SINGLES: usize = 15;
-/// all single changes (15..=17: skips with infinite stretch of order fill, filll and negative fil)
-const N_ALL_SINGLES: usize = 18;
+/// all single changes (15..=17: skips with infinite stretch of order fill, filll and negative fil; 18: stretchy finite \\rightskip)
+const N_ALL_SINGLES: usize = 19;
 /// fields touched by single change k (two changes of the same field are not combined)
 const FIELD_OF: [u8; N_SINGLES] = [0, 0, 1, 2, 3, 4, 4, 5, 5, 6, 7, 7, 8, 9, 3];
 
@@ -198,10 +215,13 @@ fn apply_single(v: &mut PVar, k: usize, u: i32) {
         15 => p.right_skip = Glue { width: Scaled::ZERO, stretch: Scaled(u), stretch_order: GlueOrder::Fill, ..Default::default() },
         16 => p.left_skip = Glue { width: Scaled::ZERO, stretch: Scaled(u), stretch_order: GlueOrder::Filll, ..Default::default() },
         17 => p.right_skip = Glue { width: Scaled::ZERO, stretch: Scaled(-u), stretch_order: GlueOrder::Fil, ..Default::default() },
+        // a ragged-right margin with generous finite stretch: every line, also a one-box line and the
+        // last one, gets a finite badness that depends on where it starts
+        18 => p.right_skip = Glue { width: Scaled::ZERO, stretch: Scaled(6 * u), shrink: Scaled(2 * u), ..Default::default() },
         _ => unreachable!(),
     }
 }
-/// 0 = plain defaults; 1..=18 = one change; then every pair of the first 15 changes that touch different fields.
+/// 0 = plain defaults; 1..=19 = one change; then every pair of the first 15 changes that touch different fields.
 fn pvars(u: i32, pairs: bool) -> Vec<(String, PVar)> {
     let base = PVar { params: Params::plain_tex_defaults(), emergency: 0, bare_end: false };
     let mut out = vec![("plain".to_string(), base.clone())];
@@ -537,6 +557,15 @@ fn check_instance(idx: u64, inst: &Inst, acc: &mut Acc) {
             acc.count("looseness_changed_the_line_count");
         }
     }
+    if let Some((lines, _)) = &want {
+        if loose != 0 && br.last_fit_by_count.get(lines).map(|m| m.count_ones() >= 2).unwrap_or(false) {
+            let best_lines = br.best.as_ref().map(|b| b.1.len() as i64).unwrap_or(0);
+            if *lines as i64 - best_lines == loose || kp::looseness_choice(&br.per_count, loose).map(|c| c.1 == loose).unwrap_or(false) {
+                acc.count("requested_line_count_reached_with_last_lines_of_two_fitness_classes");
+                acc.count(if loose > 0 { "…the same with positive looseness" } else { "…the same with negative looseness" });
+            }
+        }
+    }
     if loose != 0 && want.is_none() && br.feasible > 0 {
         acc.count("looseness_not_reachable");
     }
@@ -588,7 +617,7 @@ fn check_instance(idx: u64, inst: &Inst, acc: &mut Acc) {
         acc.class(&format!("ok {} lines={} bps={}", if got.is_some() { "Some" } else { "None" }, got.as_ref().map(|gv| gv.len()).unwrap_or(0).min(9), o.bps.len()));
         return;
     }
-    let cls = format!("FAIL e2e: {} / step: {}", e2e.as_ref().map(|e| e.0).unwrap_or("ok"), step.as_ref().map(|s| s.0.as_str()).unwrap_or("ok"));
+    let cls = format!("FAIL e2e: {} / step: {}{}", e2e.as_ref().map(|e| e.0).unwrap_or("ok"), step.as_ref().map(|s| s.0.as_str()).unwrap_or("ok"), if loose != 0 { format!(" [looseness {loose:+}]") } else { String::new() });
     acc.class(&cls);
     let observed = || format!("{}{}", e2e.as_ref().map(|e| e.1.clone()).unwrap_or_else(|| format!("{got:?} (end to end as expected)")), step.as_ref().map(|s| format!(" | per step: {}", s.1)).unwrap_or_default());
     debug_class(&cls, &|| format!("{} | want {} | got {}", vcore::compact(&inst.json(), 1500), want_text(), observed()));
@@ -639,7 +668,7 @@ impl Space {
     }
     fn bounds(&self) -> String {
         format!(
-            "{}: {} boxes (each 5u or 3u wide) joined by every choice from the '{}' menu ({} items); unit u in {:?} sp; line widths (in u) {:?}; tolerance in {:?}; {} parameter set(s){}; looseness in {:?}; force_solution in {:?}; list endings {:?} (0 = \\penalty10000 \\parfillskip plus 1fil or bare as the parameter set says, 1-3 = \\parfillskip plus 1u fil/fill/filll, 4 = plus -1u fil, 5 = bare)",
+            "{}: {} boxes (each 5u or 3u wide) joined by every choice from the '{}' menu ({} items); unit u in {:?} sp; line widths (in u) {:?}; tolerance in {:?}; {} parameter set(s){}; looseness in {:?}; force_solution in {:?}; list endings {:?} (0 = \\penalty10000 \\parfillskip plus 1fil or bare as the parameter set says, 1-3 = \\parfillskip plus 1u fil/fill/filll, 4 = plus -1u fil, 5 = bare, 6 = plus 1u finite, 7 = 0pt, 8 = 2u minus 2u)",
             self.what,
             self.nb,
             self.menu,
@@ -648,7 +677,7 @@ impl Space {
             self.widths,
             self.tolerances,
             self.n_pvars(),
-            if self.pairs { " (plain, 18 single changes, all pairs of the first 15 that touch different fields)" } else { " (plain + single changes)" },
+            if self.pairs { " (plain, 19 single changes, all pairs of the first 15 that touch different fields)" } else { " (plain + single changes)" },
             self.loosenesses,
             self.forces,
             self.endings
@@ -754,6 +783,48 @@ fn spaces(quick: bool) -> Vec<Space> {
             loosenesses: vec![1, -1, 2, -2],
             forces: vec![false, true],
             endings: vec![0],
+        },
+        Space {
+            name: "looseness-finite-end",
+            what: "non-zero looseness on paragraphs whose last line has no infinite stretch (bare end, \\parfillskip plus 1u, 0pt, 2u minus 2u): several final active nodes of one line count in different fitness classes (§875 must take the one with fewest demerits)".into(),
+            menu: "stretchy",
+            nb: if quick { 4 } else { 5 },
+            units: vec![PT],
+            widths: vec![vec![9], vec![12], vec![16]],
+            tolerances: vec![200, 10000],
+            pairs: false,
+            pvar_sel: vec![0],
+            loosenesses: vec![1, 2, -1],
+            forces: vec![false, true],
+            endings: vec![5, 6, 7, 8],
+        },
+        Space {
+            name: "looseness-finite-end-ragged",
+            what: "the same with \\rightskip 0pt plus 6u minus 2u, so that every line (also a one-box line and the last one) has a finite badness that depends on where it starts: negative looseness becomes reachable with competing final nodes".into(),
+            menu: "stretchy",
+            nb: if quick { 4 } else { 5 },
+            units: vec![PT],
+            widths: vec![vec![9], vec![12], vec![16]],
+            tolerances: vec![10000],
+            pairs: false,
+            pvar_sel: vec![19],
+            loosenesses: vec![-1, -2, 1],
+            forces: vec![false],
+            endings: vec![5, 6, 7, 8],
+        },
+        Space {
+            name: "clean-finite-end",
+            what: "looseness 0 on paragraphs whose last line has no infinite stretch".into(),
+            menu: "reduced",
+            nb: 4,
+            units: vec![PT],
+            widths: vec![vec![9], vec![12], vec![12, 7], vec![7, 12, 9]],
+            tolerances: vec![0, 100, 200, 10000],
+            pairs: false,
+            pvar_sel: vec![0],
+            loosenesses: vec![0],
+            forces: vec![false],
+            endings: vec![5, 6, 7, 8],
         },
         Space {
             name: "adjacent-discardables",
@@ -920,6 +991,9 @@ fn main() {
     ctx.require("optimum_breaks_at_a_discretionary", "the optimum uses a discretionary break");
     ctx.require("optimum_has_consecutive_hyphenated_breaks", "the optimum has two hyphenated breaks in a row (double- or final-hyphen demerits paid)");
     ctx.require("looseness_changed_the_line_count", "non-zero looseness selects a different number of lines than the optimum has");
+    ctx.require("requested_line_count_reached_with_last_lines_of_two_fitness_classes", "the requested looseness is reached and at least two feasible sequences of that line count end in last lines of different fitness classes (several final active nodes compete in §875)");
+    ctx.require("…the same with positive looseness", "the previous counter restricted to looseness > 0");
+    ctx.require("…the same with negative looseness", "the previous counter restricted to looseness < 0");
     ctx.require("looseness_not_reachable", "the requested looseness cannot be reached although feasible sequences exist");
     ctx.require("no_feasible_sequence", "no sequence of breaks is feasible (the answer must be None)");
     ctx.require("optimum_runs_past_the_listed_line_widths", "the optimum has more lines than the width sequence lists (line classes merge)");
